@@ -63,7 +63,7 @@ import oracle
 from ser import Ids, Ser, Unsupported, cst, rat, ser, deser, env_text, store_text, bits_to_float
 
 LEAN_MODULE = "Optyx.Props.C01"
-EXTRA_MODULES = ["Optyx.Props.PinsC01", "Optyx.Props.C01Source", "Optyx.Props.OperatorsTie"]   # transcription anchors (harness/source_pins.py)
+EXTRA_MODULES = ["Optyx.Props.PinsC01", "Optyx.Props.C01Source", "Optyx.Props.OperatorsTie", "Optyx.Props.SpineTie"]   # transcription anchors (harness/source_pins.py)
 THEOREMS = [
     "Optyx.Props.C01.evaluate_eq_denote",
     "Optyx.Props.C01.compile_total",
@@ -93,6 +93,12 @@ THEOREMS = [
     "Optyx.Props.EvalTie.source_equations_solvable",
     "Optyx.Props.C01.evaluate_eq_denote_of_source_equations",
     "Optyx.Props.C01.compile_eq_evaluate_of_source_equations",
+    "Optyx.Props.SpineTie.depthC_step",
+    "Optyx.Props.SpineTie.depthE_step",
+    "Optyx.Props.SpineTie.spineBU_step",
+    "Optyx.Props.SpineTie.depthG_eq",
+    "Optyx.Props.SpineTie.compileSwitch_eq",
+    "Optyx.Props.SpineTie.getAllVariables_eq",
     "Optyx.Props.PinsC01.anchors",
 ]
 ASSUMPTIONS = [
